@@ -674,7 +674,9 @@ def gen_merge_all(rng):
 def gen_merge_all_shaped(rng):
     """Long-run shapes per (seqid, featuretype, strand) group, no ties on the merge order: every criterion may be used."""
     rows = G.shaped_db_feats(rng)
-    ids = G.ids_for(rng, rows, shaped=rng.random() < 0.1)
+    # plain ids: with ids of the form <featuretype>_<n> and exclude_components a later merged feature may be stored under
+    # the id of a member deleted earlier in the same call; whether such an id counts as fresh is not stated
+    ids = G.ids_for(rng, rows)
     r = rng.random()
     desc = G.single_criterion(rng) if r < 0.1 else G.shaped_criteria(rng)
     groups = None
